@@ -14,6 +14,7 @@ import (
 
 	"pgregory.net/rapid"
 
+	"github.com/mutagen-io/mutagen/pkg/filesystem"
 	"github.com/mutagen-io/mutagen/pkg/identifier"
 	"github.com/mutagen-io/mutagen/pkg/logging"
 	"github.com/mutagen-io/mutagen/pkg/synchronization"
@@ -50,13 +51,25 @@ const interval = time.Second
 const notifyBound = 2*interval + 1500*time.Millisecond
 
 type run struct {
-	violation string
-	timing    bool // the violation rests on a timing bound
-	classes   []string
+	violation  string
+	timing     bool // the violation rests on a timing bound
+	classes    []string
 	nontrivial bool
 }
 
 var scanOpts = disk.ScanOpts{SymlinkMode: core.SymbolicLinkMode_SymbolicLinkModePortable, PermMode: core.PermissionsMode_PermissionsModePortable}
+
+// slowDown delays the creation of directories named slow-*: such transitions
+// take longer than a polling interval.
+func slowDown() func() {
+	filesystem.VerifSetInjector(func(op, path string) error {
+		if op == "mkdirat" && strings.HasPrefix(filepath.Base(path), "slow-") {
+			time.Sleep(1300 * time.Millisecond)
+		}
+		return nil
+	})
+	return func() { filesystem.VerifSetInjector(nil) }
+}
 
 func execute(c *Case, dir string) (r run) {
 	root := filepath.Join(dir, "root")
@@ -280,7 +293,7 @@ func drawCase(rt *rapid.T, allowReversal bool) *Case {
 	c.Steps = append(c.Steps, &Step{Op: "sleep", Ms: rapid.SampledFrom([]int{50, 300, 1100}).Draw(rt, "warmup")})
 	for n := rapid.IntRange(2, 5).Draw(rt, "blocks"); n > 0; n-- {
 		name := rapid.SampledFrom(names).Draw(rt, "name")
-		kinds := []string{"external", "transition", "transition-then-external-other"}
+		kinds := []string{"external", "transition", "transition-then-external-other", "slow-transition"}
 		if allowReversal {
 			kinds = append(kinds, "transition-then-reversal", "transition-then-reversal", "two-transitions-then-reversal", "two-transitions-then-reversal")
 		}
@@ -289,6 +302,12 @@ func drawCase(rt *rapid.T, allowReversal bool) *Case {
 			c.Steps = append(c.Steps, &Step{Op: rapid.SampledFrom([]string{"external-create", "external-remove"}).Draw(rt, "ext"), Name: name})
 		case "transition":
 			c.Steps = append(c.Steps, &Step{Op: rapid.SampledFrom([]string{"transition-create", "transition-remove"}).Draw(rt, "tr"), Name: name})
+		case "slow-transition":
+			// A transition that takes longer than a polling interval (its
+			// directory creation is delayed through the filesystem hook), so
+			// a polling scan runs while it is in flight; scanned right after.
+			c.Steps = append(c.Steps, &Step{Op: "transition-create", Name: "slow-" + name})
+			c.Steps = append(c.Steps, &Step{Op: "scan"})
 		case "transition-then-external-other":
 			c.Steps = append(c.Steps, &Step{Op: rapid.SampledFrom([]string{"transition-create", "transition-remove"}).Draw(rt, "tr"), Name: name})
 			c.Steps = append(c.Steps, &Step{Op: "sleep", Ms: rapid.SampledFrom([]int{0, 100, 600}).Draw(rt, "gap")})
@@ -342,13 +361,14 @@ func TestPollHistories(t *testing.T) {
 	if ev.ReplayPath() != "" {
 		t.Skip()
 	}
-	rec := ev.New(t, prop, "poll-histories", "rapid: a real local endpoint with a 1 s polling interval (force-poll, or portable = poll + non-recursive watcher) and a background Poll loop; 2-5 blocks of: external create/remove, transition create/remove (each followed by an immediate scan that must equal an independent walk of the disk), transition followed by an external edit elsewhere, transition followed - after the post-transition scan - by an external exact reversal; a stand-in controller scans after every poll notification; after each block its belief (last scan result, updated by its own transition results) must equal the disk within 2 intervals + 1.5 s (re-executed three times before reporting), and a foreground scan must then equal an independent walk; non-trivial: the history contains transition -> scan -> exact reversal")
+	rec := ev.New(t, prop, "poll-histories", "rapid: a real local endpoint with a 1 s polling interval (force-poll, or portable = poll + non-recursive watcher) and a background Poll loop; 2-5 blocks of: external create/remove, transition create/remove (each followed by an immediate scan that must equal an independent walk of the disk), transition followed by an external edit elsewhere, a transition delayed past a polling interval (through the filesystem hook) and scanned right after, transition followed - after the post-transition scan - by an external exact reversal; a stand-in controller scans after every poll notification; after each block its belief (last scan result, updated by its own transition results) must equal the disk within 2 intervals + 1.5 s (re-executed three times before reporting), and a foreground scan must then equal an independent walk; non-trivial: the history contains transition -> scan -> exact reversal")
 	base := t.TempDir()
 	env, err := sess.NewEnv(filepath.Join(base, "data"))
 	if err != nil {
 		t.Fatal(err)
 	}
 	defer env.Close()
+	defer slowDown()()
 	_, known := ev.KnownClass(prop, ClassReversalAfterScan)
 	n := 0
 	// Histories run in real time (seconds each): several per rapid case, in
@@ -449,6 +469,7 @@ func TestReplay(t *testing.T) {
 		t.Fatal(err)
 	}
 	defer env.Close()
+	defer slowDown()()
 	n := 0
 	if r, _ := judge(&c, base, &n); r.violation != "" {
 		ev.FailTB(t, rec, &c, "%s", r.violation)
